@@ -42,6 +42,16 @@ class VC:
         self.meta = meta or {}
 
 
+def solved_vc(name, status, solver, ms, model, detail, meta, path_id, smt2, inputs):
+    v = VC.__new__(VC)
+    v.name, v.status, v.solver, v.ms, v.model, v.detail = name, status, solver, ms, model, detail
+    v.meta, v.path_id, v.smt2, v.inputs = meta or {}, path_id, smt2 or "", list(inputs)
+    v.has_strings = False
+    v.has_quant = False
+    v.kind = "vc"
+    return v
+
+
 def _decode_z3_string(v):
     try:
         return v.as_string() if not hasattr(v, "py_value") else v.py_value()
@@ -187,6 +197,56 @@ def cross_check_one(args):
     return st, other, t
 
 
+def solve_terms(hyps, goal, inputs, budget_ms):
+    """discharge one VC given as z3 terms, in this process (no SMT-LIB text unless needed).
+    Returns (status, solver, ms, model, detail, smt2_or_None)."""
+    t0 = time.time()
+    from .interp import _has_strings
+    stringy = _has_strings(goal) or any(_has_strings(h) for h in hyps)
+    if not stringy:
+        s = z3.Solver()
+        s.set("timeout", int(budget_ms))
+        s.set("rlimit", 40000000)
+        for h in hyps:
+            s.add(h)
+        s.add(z3.Not(goal))
+        try:
+            r = s.check()
+        except z3.Z3Exception:
+            r = z3.unknown
+        ms = int((time.time() - t0) * 1000)
+        if r == z3.unsat:
+            return "unsat", "z3", ms, None, "", None
+        if r == z3.sat:
+            m = s.model()
+            vals = {}
+            want = set(inputs)
+            for d in m.decls():
+                if d.arity() == 0 and d.name() in want:
+                    v = m[d]
+                    try:
+                        if z3.is_int_value(v):
+                            vals[d.name()] = v.as_long()
+                        elif z3.is_true(v) or z3.is_false(v):
+                            vals[d.name()] = z3.is_true(v)
+                        elif z3.is_string_value(v):
+                            vals[d.name()] = _z3_unescape(v.as_string())
+                        else:
+                            vals[d.name()] = str(v)
+                    except Exception:  # noqa: BLE001
+                        vals[d.name()] = str(v)
+            return "sat", "z3", ms, vals, "", None
+    # strings (cvc5 first) or z3 unknown: fall back to the text portfolio
+    sv = z3.Solver()
+    for h in hyps:
+        sv.add(h)
+    sv.add(z3.Not(goal))
+    smt2 = sv.to_smt2()
+    has_strings = "String" in smt2 or "(Seq" in smt2
+    st, solver, ms, model, detail = solve_one((smt2, list(inputs), has_strings, budget_ms))
+    return st, solver, ms + int((time.time() - t0) * 1000), model, detail, smt2
+
+
 _pool = None
 
 
@@ -197,12 +257,12 @@ def pool():
     return _pool
 
 
-def discharge(vcs, budget_ms=10000):
+def discharge(vcs, budget_ms=10000, serial=False):
     todo = [v for v in vcs if v.status is None]
     if not todo:
         return
     jobs = [(v.smt2, v.inputs, v.has_strings, budget_ms) for v in todo]
-    if len(todo) <= 2:
+    if len(todo) <= 2 or serial:
         results = [solve_one(j) for j in jobs]
     else:
         results = list(pool().map(solve_one, jobs, chunksize=1))
